@@ -271,7 +271,7 @@ def drawn_threshold(an, sector):
             for ax in plt.figure(num).axes:
                 for ln in ax.lines:
                     xs = list(ln.get_xdata())
-                    if len(xs) == 2 and xs[0] == xs[1] and ln.get_linestyle() == '--':
+                    if len(xs) == 2 and xs[0] == xs[1]:            # a vertical line, whatever its style
                         out.append(to_int(xs[0]))
         return out
     except Exception as ex:
